@@ -12,12 +12,24 @@ CHECKS = {
  "C02": ("6/C02", "TLA+ CborDecoder (stack machine) vs CborGrammar (declarative RFC 8949 reference) agreement by TLC (MC_Decoder, L=1,2,3); TLC trace validation of hooked cbor_load executions incl. returned tree, refcounts, read (Trace_Decoder, Trace_LoadE2E)",
          "TLC shows that the stack algorithm and an independent recursive-descent reference agree on accept/reject, tree, bytes read and error for every head string within the bound (3.0M states). Each real execution is then replayed by TLC through the machine with the projected stack compared after every loop iteration, and its result (tree through public getters after the input block was overwritten and freed, every refcount, bytes read) is judged against machine and grammar.",
          "Trusted: TLC, recorder. The reference grammar is transcribed from RFC 8949 and the property text; scalar values/string contents are restored in conformance from the logged bytes. Bounded input space: see evidence rule."),
+ "C03": ("6/C03", "TLA+ CborEncode.Encode evaluated by TLC on every logged tree (Trace_Serialize); TLC model check MC_RoundTrip: Encode vs the reference decoder on a bounded tree space",
+         "TLC checks on a bounded tree space (all types and stored widths, boundary values, chunked strings, depth 2) that the specified encoding is decoded by the independently specified reference decoder into an equal tree and re-encodes identically. For every tree obtained from the real construction API or decoder, TLC computes Encode(tree) and requires the real serializer's bytes to be identical, the reload to consume all bytes and give an equal tree (NaN = NaN), and re-serialization to be identical.",
+         "Trusted: TLC; recorder logs trees through public getters. Tree space: seeded random construction histories and decoded random encodings (see evidence rule)."),
  "C05": ("6/C05", "TLA+ CborGrammar.Admissible (code, position) oracle incl. the permitted lazy report; TLC model check; TLC trace validation of failing cbor_load executions with pre-filled result struct",
          "TLC checks machine = grammar on error code and position for all bounded head strings (incl. nesting limit and refused allocation). Every failing real execution is judged by TLC: NULL, nothing left allocated, all three result fields written, (code, position) in the admissible set computed by the grammar from the logged heads; eager and lazy reports of an item opened inside a chunked string are both accepted.",
          "Trusted: TLC, recorder (result struct pre-filled with 0xAB; raw field values logged). Bounded input space."),
+ "C07": ("6/C07", "TLA+ fixed-buffer contract (CborEncode.SerializeRet) judged by TLC on every recorded cbor_serialize / cbor_serialize_alloc / cbor_encode_* call (Trace_Serialize, Trace_EncDec); sentinel frame + ASan exact-size buffers",
+         "For every tree and every buffer size 0..size+2, and every encoder x boundary value x buffer size 0..10, TLC judges the logged return value against the contract (size if it fits, else 0), that nothing outside the first n bytes (resp. beyond the returned count) was modified, and that serialize_alloc hands out a block of exactly the computed size holding exactly those bytes.",
+         "Trusted: TLC; writes are observed by a two-sentinel frame and by ASan red zones. Relative clauses (agreement) are judged against the library's own size, so that a wrong encoding (C03) is not reported here."),
  "C08": ("6/C08", "TLA+ requirement CborWire.StreamDecode; TLC model check (MC_Wire) + TLC trace validation of recorded cbor_stream_decode calls (Trace_Wire)",
          "TLC checks the wire requirement for internal consistency on 27k (head, window) states (two independent transcriptions of the RFC table agree; a legal `required` always exists; FINISHED depends only on the bytes read). Every recorded call of the real cbor_stream_decode (all 256 initial bytes x argument classes x window lengths, exact-size ASan buffers) is then validated line by line by TLC against that requirement.",
          "Trusted: TLC, the ndjson recorder in harness/h_wire.c (logs raw inputs and outputs only), ASan/UBSan for out-of-window reads. Bounded input space: see evidence rule."),
+ "C10": ("6/C10", "TLA+ CborEncode.EncoderBytes (one operator per public encoder) vs CborWire by TLC (MC_EncDec); TLC trace validation of every recorded encode+decode pair (Trace_EncDec)",
+         "TLC checks on the bounded domain that the demanded encoder output is the shortest/fixed-width big-endian RFC head and decodes back to the same kind and value. Every real (encoder, value) pair - exhaustive for 8-bit domains, 16-bit exhaustive in thorough, 2^k-1/2^k/2^k+1 and width boundaries for 32/64-bit, all halves - is judged by TLC: bytes identical to the requirement, decoder fires the matching callback with the identical value and reads exactly those bytes.",
+         "Trusted: TLC, recorder."),
+ "C11": ("6/C11", "TLC trace validation of recorded cbor_copy cases (Trace_Serialize, C11 clauses): shape, refcounts, address disjointness, byte equality, source unchanged, independence under mutation/release; ASan",
+         "For every tree of the C03 space (incl. shared sub-items, empty containers, zero-chunk strings, 64-bit integers) TLC judges the logged copy: same flat shape and content, every refcount 1, no node or buffer address in common, same serialization, source contents and refcounts unchanged; the copy is then modified and released and the source re-serialized, and a copy of a copy must survive the release of the first.",
+         "Trusted: TLC, recorder; use-after-free through sharing is observed by ASan."),
  "C14": ("6/C14", "TLA+ reference decoder CborLoadRef (tokenisation + grammar) evaluated by TLC on logged bytes; TLC model check of the machine stopping at the first item; trace validation (Trace_Sequence)",
          "For every (x, y) pair and every concatenation recorded from the real cbor_load, TLC computes from the logged bytes what x denotes and requires x and x.y to give that tree and read = |x|, and the cbor_sequence loop to split a concatenation into exactly its items ending at the buffer end.",
          "Trusted: TLC, recorder. x ranges over seeded random well-formed items; y over empty, single bytes (all 256 for the first 12 x), items, garbage, structural bytes."),
